@@ -276,6 +276,7 @@ def run(ctx, prop, rule_text):
                     fail("C15:rename", "the unused-variable verdicts changed under a consistent renaming", j,
                          {"original": cases[base]["text"], "per_method_original": bpm, "per_method_renamed": pm})
     ctx.coverage_meta = {"permutations": nperm, "renamings": nren, "recasings": nrec}
+    broken_elsewhere_oracle(ctx, prop, 150 if ctx.tier == "quick" else 3000)
     # ---- discrepancy probes ---------------------------------------------------------------------------
     n0 = len(cases)
     for k, (sig, title, text) in enumerate(probes):
@@ -338,6 +339,41 @@ def run(ctx, prop, rule_text):
     ctx.dist["cases_outside_domain"] = outside
     extra = {"metamorphic": ctx.coverage_meta, "extracted": getattr(ctx, "extract_info", {}), "notes": ctx.notes}
     return ctx.finish(rule=rule_text, extra=extra)
+
+
+def broken_elsewhere_oracle(ctx, prop, n):
+    """per-method verdicts do not depend on a SYNTAX ERROR in another method: the same program with one more method whose
+    body does not parse (appended, or inserted in front) must get the same items for the methods it had — from the REAL
+    diagnostics request (the parser's own diagnostics are not compared)"""
+    broken = ["proc zBroken\n  x = )\nendproc\n", "proc zBroken\n  if (\nendproc\n", "func zBroken return int\n  return ] + 1\nendfunc\n"]
+    texts, cases = [], []
+    for i in range(n):
+        p = G.gen_prog(ctx.rng, 1 if prop == "C16" else 0)
+        text, exp, per = G.render(p)
+        extra = ctx.rng.choice(broken)
+        lines = text.split("\n")
+        first = next((k for k, l in enumerate(lines) if l.startswith("proc ") or l.startswith("func ")), len(lines))
+        front = ctx.rng.chance(1, 3)
+        t2 = "\n".join(lines[:first] + extra.rstrip("\n").split("\n") + [""] + lines[first:]) if front else text.rstrip("\n") + "\n\n" + extra
+        cases.append(({"text": text}, {"text": t2}, front))
+        texts += [text, t2]
+        ctx.count("lint-broken-elsewhere")
+    out = ctx.run_harness("lint", ["lint " + esc(t) for t in texts], timeout=900)
+    mine = (lambda cr: is15(cr)) if prop == "C15" else (lambda cr: not is15(cr) and not cr.startswith("other:"))
+    for k, (a, b, front) in enumerate(cases):
+        oa, ob = parse_out(out[2 * k]), parse_out(out[2 * k + 1])
+        if oa is None or ob is None:
+            if ob is None and oa is not None:
+                ctx.oracle_fail("%s:request-failed-on-broken-file" % prop, "no diagnostics for a file with a syntax error in one method",
+                                {"mode": "lint", "text": b["text"], "implementation": out[2 * k + 1][:300]})
+            continue
+        pa = per_method_impl(a, oa[0], mine)
+        pb = per_method_impl(b, ob[0], mine)
+        pb = pb[1:] if front else pb[:len(pa)]
+        if pa != pb:
+            ctx.oracle_fail("%s:depends-on-syntax-error-elsewhere" % prop,
+                            "the verdicts of the intact methods changed when a method with a syntax error was added to the file",
+                            {"mode": "lint", "text": b["text"], "as_written": a["text"], "per_method_intact_file": pa, "per_method_with_broken_method": pb})
 
 
 def recase_oracle(ctx, n):
